@@ -26,11 +26,15 @@ OWNS = {
     "ord": ["Ord", "PartialOrd", "Eq", "PartialEq", "Hash"],
     "partial_ord": ["PartialOrd", "PartialEq"],
     "eq": ["Eq", "PartialEq", "Hash"],
-    "partial_eq": ["Eq", "PartialEq"],
+    "partial_eq": ["PartialEq"],
     "hash": ["Hash"],
     "debug": ["Debug"],
     "default": ["Default"],
 }
+
+# The doc table also ticks partial_eq -> Eq, but the repository's own trybuild cases
+# (eq_with_partial_eq_{ignore,key,by}) treat that pairing as an error: not judged either way.
+OWNS_DONTCARE = {("partial_eq", "Eq")}
 
 SUPER = {"Ord": ["PartialOrd", "Eq", "PartialEq"], "PartialOrd": ["PartialEq"], "Eq": ["PartialEq"],
          "PartialEq": [], "Hash": []}
